@@ -1,8 +1,8 @@
 (* C15 - Higher-order reduction is exact on consistent assignments; penalty is never < 0.
    Only statements; every proof is `exact <lemma>`; examples by computation. *)
 From Coq Require Import List ZArith QArith Qcanon Bool Arith.
-From Dimod Require Import Base.Util Model.Poly Model.HPoly Model.Reduce
-  Proofs.ReduceFacts Proofs.PenaltyFacts Proofs.MakeQuadratic Proofs.NormaliseFacts Proofs.C15EndToEnd Proofs.ReduceLoop Proofs.BaseFacts Model.Gates Gen.Gen_Gates Gen.Gen_SpinProduct Proofs.GenPenalties Proofs.PolymorphFacts.
+From Dimod Require Import Base.Util Model.Poly Model.HPoly Model.HPolyPy Proofs.HPolyPyFacts Model.PolyCtor Proofs.PolyCtorFacts Gen.Gen_PolyCtor Proofs.PolyCtorGenFacts Model.Reduce
+  Proofs.ReduceFacts Proofs.PenaltyFacts Proofs.MakeQuadratic Proofs.NormaliseFacts Proofs.C15EndToEnd Proofs.ReduceLoop Proofs.BaseFacts Model.Gates Gen.Gen_Gates Gen.Gen_SpinProduct Proofs.GenPenalties Proofs.PolymorphFacts Proofs.ExpandInit.
 Import ListNotations.
 Open Scope Qc_scope.
 
@@ -307,6 +307,149 @@ Theorem C15_restricted_row_energy :
     henergy poly (row_sample vo (map (row_sample vc r) vo)) = henergy poly (row_sample vc r).
 Proof. exact restricted_row_energy. Qed.
 Print Assumptions C15_restricted_row_energy.
+
+(* ---------- HigherOrderComposite.sample_poly(initial_state=...): expand_initial_state ---------- *)
+(* the state handed to the child (products in constraint order, then every auxiliary spin at its minimiser; CInit
+   compares the implementation's state with exactly this one) keeps the given values, is consistent, and its energy
+   in the quadratic model is the polynomial's energy of the given state.  (BINARY: C15_make_quadratic_binary_attained.) *)
+Theorem C15_expand_initial_state_spin :
+  forall s poly cons (a : sample),
+    terms_nodup poly = true -> valid_cons4 poly cons = true ->
+    all_degree_le2 (reduce_with (map drop_aux cons) poly) = true -> is_spin a ->
+    let e := set_aux cons (extend (map drop_aux cons) a) in
+    (forall x, In x (hvars poly) -> e x = a x) /\ is_spin e /\
+    consistent (map drop_aux cons) (extend (map drop_aux cons) a) /\
+    energy (mq_spin s cons (reduce_with (map drop_aux cons) poly)) e = henergy poly a.
+Proof. exact expand_initial_state_spin. Qed.
+Print Assumptions C15_expand_initial_state_spin.
+
+(* ---------- the constructors of the polynomial that is reduced (Model/PolyCtor.v, code shaped) ---------- *)
+(* BinaryPolynomial(dict | iterable | polynomial, vartype): whatever the order of the variables inside a key, however
+   often a variable is repeated, however many keys / entries denote the same monomial, the dict that __init__ builds
+   has at EVERY key the coefficient of the normalised input ... *)
+Theorem C15_poly_init_coeff :
+  forall vt raw, hpoly_eqb (poly_init vt raw) (normalise vt raw) = true.
+Proof. exact poly_init_coeff. Qed.
+Print Assumptions C15_poly_init_coeff.
+
+(* ... its keys are distinct sorted sets (a dict of frozensets) ... *)
+Theorem C15_ctor_model_wf : forall k, hdict_wf (ctor_model k).
+Proof. exact ctor_model_wf. Qed.
+Print Assumptions C15_ctor_model_wf.
+
+(* ... and the key computed by the constructor's own branch structure is the normalised term *)
+Theorem C15_ctor_key_spec :
+  forall vt term,
+    ctor_key vt term = match vt with SPIN => spin_reduce_vars term | _ => binary_reduce_vars term end.
+Proof. exact ctor_key_spec. Qed.
+Print Assumptions C15_ctor_key_spec.
+
+(* from_hubo(H, offset): a constant term already present in H (under () or under a key whose variables cancel) is
+   KEPT and the offset is added to it: the polynomial is H + offset, coefficient-wise and in value *)
+Theorem C15_from_hubo_coeff :
+  forall H off, hpoly_eqb (from_hubo_py H off) (normalise BINARY (H ++ opt_offset off)) = true.
+Proof. exact from_hubo_py_coeff. Qed.
+Print Assumptions C15_from_hubo_coeff.
+
+Theorem C15_from_hubo_energy :
+  forall H off (s : sample), (forall v, s v * s v = s v) ->
+    henergy (from_hubo_py H off) s = henergy H s + offset_value off.
+Proof. exact from_hubo_py_energy. Qed.
+Print Assumptions C15_from_hubo_energy.
+
+(* from_hising(h, J, offset): sum_i h_i s_i + J(s) + offset, also when J has keys on a single variable, keys whose
+   variables cancel (s*s = 1) or the key () *)
+Theorem C15_from_hising_energy :
+  forall h J off (s : sample), (forall v, s v * s v = 1) ->
+    henergy (from_hising_py h J off) s = lin_energy h s + henergy J s + offset_value off.
+Proof. exact from_hising_py_energy. Qed.
+Print Assumptions C15_from_hising_energy.
+
+(* every constructor: the value of the polynomial built is the value of what was given *)
+Theorem C15_ctor_energy_binary :
+  forall k (s : sample), ctor_vt k = BINARY -> (forall v, s v * s v = s v) ->
+    henergy (ctor_model k) s = henergy (ctor_spec k) s.
+Proof. exact ctor_model_energy_binary. Qed.
+Print Assumptions C15_ctor_energy_binary.
+
+Theorem C15_ctor_energy_spin :
+  forall k (s : sample), ctor_vt k = SPIN -> (forall v, s v * s v = 1) ->
+    henergy (ctor_model k) s = henergy (ctor_spec k) s.
+Proof. exact ctor_model_energy_spin. Qed.
+Print Assumptions C15_ctor_energy_spin.
+
+(* to_hubo / to_hising lose nothing: (H, offset) resp. (h, J, offset) have the polynomial's value at EVERY assignment;
+   to_hubo never emits a constant term (so from_hubo(to_hubo()) exercises no constant inside H) *)
+Theorem C15_to_hubo_energy :
+  forall p (s : sample), hdict_wf p -> henergy (fst (to_hubo_py p)) s + snd (to_hubo_py p) = henergy p s.
+Proof. exact to_hubo_py_energy. Qed.
+Print Assumptions C15_to_hubo_energy.
+
+Theorem C15_to_hubo_no_constant :
+  forall p t, In t (fst (to_hubo_py p)) -> fst t <> [].
+Proof. exact to_hubo_py_no_constant. Qed.
+Print Assumptions C15_to_hubo_no_constant.
+
+Theorem C15_to_hising_energy :
+  forall p (s : sample), hising_value (to_hising_py p) s = henergy p s.
+Proof. exact to_hising_py_energy. Qed.
+Print Assumptions C15_to_hising_energy.
+
+Theorem C15_hubo_round_trip :
+  forall H off (s : sample), (forall v, s v * s v = s v) ->
+    henergy (fst (to_hubo_py (from_hubo_py H off))) s + snd (to_hubo_py (from_hubo_py H off))
+    = henergy H s + offset_value off.
+Proof. exact to_hubo_from_hubo_energy. Qed.
+Print Assumptions C15_hubo_round_trip.
+
+Theorem C15_hising_round_trip :
+  forall h J off (s : sample), (forall v, s v * s v = 1) ->
+    hising_value (to_hising_py (from_hising_py h J off)) s = lin_energy h s + henergy J s + offset_value off.
+Proof. exact to_hising_from_hising_energy. Qed.
+Print Assumptions C15_hising_round_trip.
+
+(* the constructor models use what translators/poly_ctors.py TRANSLATES from polynomial.py on every run: the value
+   from_hubo stores under () is the source's expression (gen_from_hubo_const), the list from_hising builds consists of
+   the source's parts, the parity branch of __init__ is taken for the source's vartype *)
+Theorem C15_from_hubo_is_source :
+  forall H off,
+    from_hubo_py H off =
+    let poly := poly_init gen_from_hubo_vartype H in
+    match off with
+    | None => poly
+    | Some o => hdict_set poly [] (gen_from_hubo_const (get_default poly []) o)
+    end.
+Proof. exact from_hubo_py_uses_source. Qed.
+Print Assumptions C15_from_hubo_is_source.
+
+Theorem C15_from_hising_is_source :
+  forall h J off k,
+    hcoeff (from_hising_py h J off) k
+    = hcoeff (poly_init gen_from_hising_vartype (flat_map (hising_part_terms h J off) gen_from_hising_parts)) k.
+Proof. exact from_hising_py_uses_source. Qed.
+Print Assumptions C15_from_hising_is_source.
+
+Theorem C15_ctor_key_is_source :
+  forall vt term,
+    ctor_key vt term =
+    let fs := dedup term in
+    if (length fs <? length term)%nat && vartype_eqb vt gen_init_parity_vartype
+    then filter (fun v => Nat.odd (count_occ_nat v term)) fs else fs.
+Proof. exact ctor_key_uses_source. Qed.
+Print Assumptions C15_ctor_key_is_source.
+
+Theorem C15_exporters_are_source :
+  forall p, to_hubo_py p = (filter nonempty_key p, get_default p [] gen_to_hubo_default)
+            /\ to_hising_py p = fold_left to_hising_step p ([], [], gen_to_hising_offset_init).
+Proof. exact exporters_use_source. Qed.
+Print Assumptions C15_exporters_are_source.
+
+(* a HUBO with its own constant 5/4, a repeated variable, the same monomial under two keys, and an offset 3 *)
+Example C15_ex_from_hubo :
+  let H : hpoly := [([0;1;2]%nat, qc 3 2); ([1;0]%nat, 1); ([0;1;1]%nat, half); ([], qc 5 4)] in
+  from_hubo_py H (Some (qc 3 1)) = [([0;1;2]%nat, qc 3 2); ([0;1]%nat, qc 3 2); ([], qc 17 4)]
+  /\ to_hubo_py (from_hubo_py H (Some (qc 3 1))) = ([([0;1;2]%nat, qc 3 2); ([0;1]%nat, qc 3 2)], qc 17 4).
+Proof. vm_compute. split; reflexivity. Qed.
 
 (* the hypotheses are satisfiable on a non-trivial instance: x0 x1 x2 x3 - 2 x0 x1 x2 + x3 *)
 Example C15_ex_reduce :
